@@ -37,7 +37,7 @@ Step == l' = l + 1
 Reset == Is("reset") /\ Step /\ wrs' = <<>> /\ rds' = <<>>
 
 NewW == Is("new_writer") /\ Step /\ UNCHANGED rds
-        /\ wrs' = Put(wrs, Ev.o, NewWriter(Ev.e, Ev.w) @@ [checks |-> Ev.checks, dn |-> 0, h1 |-> 0, h2 |-> 0])
+        /\ wrs' = Put(wrs, Ev.o, NewWriterCap(Ev.e, Ev.w, IF Ev.backend = "slice" THEN Ev.cap ELSE -1) @@ [checks |-> Ev.checks, dn |-> 0, h1 |-> 0, h2 |-> 0])
 
 \* delivered bytes -> stream bits through the layout contract
 Delivered(e, wr) == StreamOfBytes(wr.e, e.nb)
@@ -60,24 +60,20 @@ WStepOK(e, wr2) == CntOK(e, wr2)
 
 LiveW(o) == o \in DOMAIN wrs /\ ~wrs[o].dead
 
+\* the successor writer after appending A with delivery D (if consistent)
+After(wr, A, D) == IF Ev.res = "ok"
+                   THEN [wr EXCEPT !.pend = SubSeq(wr.pend \o A, Len(D) + 1, Len(wr.pend) + Len(A)),
+                                   !.cnt = @ + Len(A),
+                                   !.room = IF @ < 0 THEN @ ELSE @ - Len(D) \div wr.w]
+                   ELSE [wr EXCEPT !.dead = TRUE]
+
 WriteBits ==
     /\ Is("write_bits") /\ Step /\ UNCHANGED rds /\ LiveW(Ev.o)
-    /\ LET wr == wrs[Ev.o] IN
-       \E wr2 \in {IF Ev.res = "ok"
-                   THEN [wr EXCEPT !.pend = SubSeq(wr.pend \o Field(wr.e, Nat8(Ev.v), Ev.n),
-                                                   Len(Delivered(Ev, wr)) + 1,
-                                                   Len(wr.pend) + Ev.n),
-                                   !.cnt = @ + Ev.n]
-                   ELSE [wr EXCEPT !.dead = TRUE]} :
-          /\ IF Ev.res = "ok"
-             THEN WriteBitsStep(wr, Nat8(Ev.v), Ev.n, wr.checks, Ev.res, Ev.ret, Delivered(Ev, wr), wr2)
-             ELSE WriteBitsStep(wr, Nat8(Ev.v), Ev.n, wr.checks, Ev.res, Ev.ret, <<>>, wr2)
-          /\ WStepOK(Ev, wr2)
-          /\ wrs' = [wrs EXCEPT ![Ev.o] = Logged(wr2, Ev.nb)]
-
-\* the successor writer after appending A with delivery D (if consistent)
-After(wr, A, D) == [wr EXCEPT !.pend = SubSeq(wr.pend \o A, Len(D) + 1, Len(wr.pend) + Len(A)),
-                              !.cnt = @ + Len(A)]
+    /\ LET wr == wrs[Ev.o]  v == Nat8(Ev.v)  D == Delivered(Ev, wr)
+           wr2 == After(wr, Field(wr.e, v, Ev.n), D)
+       IN  /\ WriteBitsStep(wr, v, Ev.n, wr.checks, Ev.res, Ev.ret, D, wr2)
+           /\ WStepOK(Ev, wr2)
+           /\ wrs' = [wrs EXCEPT ![Ev.o] = Logged(wr2, Ev.nb)]
 
 WriteUnary ==
     /\ Is("write_unary") /\ Step /\ UNCHANGED rds /\ LiveW(Ev.o)
@@ -106,7 +102,9 @@ WriteBytes ==
 
 Flush ==
     /\ Is("flush") /\ Step /\ UNCHANGED rds /\ LiveW(Ev.o)
-    /\ LET wr == wrs[Ev.o]  wr2 == [wr EXCEPT !.pend = <<>>]
+    /\ LET wr == wrs[Ev.o]
+           wr2 == IF Ev.res = "ok" THEN [wr EXCEPT !.pend = <<>>, !.room = IF @ < 0 \/ wr.pend = <<>> THEN @ ELSE @ - 1]
+                  ELSE [wr EXCEPT !.dead = TRUE]
        IN  /\ FlushStep(wr, Ev.res, Ev.ret, Delivered(Ev, wr), wr2)
            /\ WStepOK(Ev, wr2)
            /\ wrs' = [wrs EXCEPT ![Ev.o] = Logged(wr2, Ev.nb)]
@@ -120,7 +118,7 @@ Close ==
     /\ Is("close") /\ Step /\ UNCHANGED rds /\ LiveW(Ev.o)
     /\ LET wr == wrs[Ev.o]  wr2 == [wr EXCEPT !.pend = <<>>, !.dead = TRUE]
            wl == Logged(wr, Ev.nb)
-       IN  /\ CloseStep(wr, Ev.res, Delivered(Ev, wr), [wr EXCEPT !.pend = <<>>])
+       IN  /\ CloseStep(wr, Ev.res, Delivered(Ev, wr), [wr EXCEPT !.pend = <<>>, !.room = IF @ < 0 \/ wr.pend = <<>> THEN @ ELSE @ - 1])
            /\ wl.dn <= Len(Ev.image)
            /\ FoldLeft(H1, 0, SubSeq(Ev.image, 1, wl.dn)) = wl.h1
            /\ FoldLeft(H2, 0, SubSeq(Ev.image, 1, wl.dn)) = wl.h2
